@@ -75,12 +75,15 @@ ClassMatches(logged, actual) == logged = "unknown" \/ logged = actual
 TraceCall ==
   /\ IsEvent("call")
   /\ LET t == Tr[l] IN
-     \E prof \in Profiles, d \in Docs, h \in {0} \cup {hd.id : hd \in handles} :
+     \E prof \in Profiles, d \in Docs :
        /\ ClassMatches(t.pclass, PClass[prof])
        /\ ClassMatches(t.dclass, DClass[d])
-       /\ t.entry = "validateCompiled" =>
-             \E hd \in handles : hd.id = h /\ hd.prof = prof
-       /\ DoCall(P, t.entry, prof, d, IF t.hasChan THEN C ELSE NoChan, "default", h)
+       \* handles of one profile are interchangeable in the design: the trace does not say which one was used
+       /\ LET hs == {hd \in handles : hd.prof = prof}
+              h  == IF t.entry # "validateCompiled" THEN 0
+                    ELSE IF hs = {} THEN 0 - 1 ELSE (CHOOSE hd \in hs : TRUE).id
+          IN /\ h # 0 - 1
+             /\ DoCall(P, t.entry, prof, d, IF t.hasChan THEN C ELSE NoChan, "default", h)
   /\ KeepRep
 
 \* one received event = one Start or Done step of the spec, and it must be
